@@ -208,6 +208,18 @@ TARGETED = [
     "- ```\n  code\n  ```\n- > quote\n- last\n",
 ]
 
+# hand-written documents with fenced code whose content the generator knows (parser-independent, like META of generated ones):
+# a fence indented 1-3 spaces loses at most that many leading blanks per code line -- never other characters -- and blank code
+# lines stay
+TARGETED_CODE = [
+    ("intro\n\n  ```\nab\n   cd\n\n  ef\n g\n  ```\n\nafter\n", {"top_code": ["ab\n cd\n\nef\ng"], "top_info": []}),
+    ("intro\n\n   ~~~sh\n#!/bin/sh\n\n   echo hi\n  x\n   ~~~\n", {"top_code": ["#!/bin/sh\n\necho hi\nx"], "top_info": ["sh"]}),
+    ("intro\n\n ```\n\n  a\n\n\n b\n ```\n", {"top_code": ["\n a\n\n\nb"], "top_info": []}),
+]
+for _t, _m in TARGETED_CODE:
+    META[_t] = _m
+    TARGETED.append(_t)
+
 
 def documents(seed, n, with_tags=False, hazards=True):
     rnd = random.Random(seed)
